@@ -1211,6 +1211,12 @@ func verifyPDR(pdr pdr) error {
 		return ErrUnsupported("precedence greater than 65535", pdr.precedence)
 	}
 
+	// the applications table has range and ternary fields: its entries need a priority
+	// (65535 - precedence) greater than zero
+	if !pdr.IsAppFilterEmpty() && pdr.precedence == math.MaxUint16 {
+		return ErrUnsupported("precedence 65535 for a PDR with an application filter", pdr.precedence)
+	}
+
 	return nil
 }
 
